@@ -1,0 +1,166 @@
+//go:build verif
+
+package storage
+
+import "time"
+
+// Verification hooks, enabled (build tag `verif`). Every hook forwards to a
+// table of callbacks a simulator installs with VerifSetHooks; with no table
+// installed (or a nil entry) the hook does nothing, so a verif build without a
+// simulator behaves like the ordinary build.
+
+// Exported aliases so that a simulator in another module can name the types.
+type (
+	VerifStore = fileStore
+	VerifNode  = btreeNode
+)
+
+// Exported copies of the event kinds.
+const (
+	VerifFlusherWake = verifFlusherWake
+	VerifFlusherDone = verifFlusherDone
+
+	VerifLockWantShared = verifLockWantShared
+	VerifLockRelShared  = verifLockRelShared
+	VerifLockWantExcl   = verifLockWantExcl
+	VerifLockRelExcl    = verifLockRelExcl
+
+	VerifAccFetch            = verifAccFetch
+	VerifAccSetCache         = verifAccSetCache
+	VerifAccAppend           = verifAccAppend
+	VerifAccIncrLastKey      = verifAccIncrLastKey
+	VerifAccIncrLSN          = verifAccIncrLSN
+	VerifAccSetPageTableRoot = verifAccSetPageTableRoot
+
+	VerifWalWriteLen  = verifWalWriteLen
+	VerifWalWriteBody = verifWalWriteBody
+	VerifWalSync      = verifWalSync
+	VerifWalFlushDone = verifWalFlushDone
+
+	VerifLRUSetHit  = verifLRUSetHit
+	VerifLRUSetNew  = verifLRUSetNew
+	VerifLRUEvict   = verifLRUEvict
+	VerifLRURefuse  = verifLRURefuse
+	VerifLRUGetHit  = verifLRUGetHit
+	VerifLRUGetMiss = verifLRUGetMiss
+)
+
+// VerifHooks is the callback table.
+type VerifHooks struct {
+	NodeMark      func(n *VerifNode, dirty bool)
+	StoreOpened   func(fs *VerifStore, path string, autoFlush bool)
+	TickerChan    func(fs *VerifStore) <-chan time.Time // non-nil result replaces the real ticker
+	Flusher       func(fs *VerifStore, phase int)
+	Lock          func(fs *VerifStore, op int)
+	Close         func(fs *VerifStore)
+	Access        func(fs *VerifStore, kind int, offset uint64)
+	PageWrite     func(fs *VerifStore, n *VerifNode, b []byte)
+	HeaderWrite   func(fs *VerifStore, b []byte)
+	FlushLoopDone func(fs *VerifStore)
+	PageRead      func(fs *VerifStore, offset uint64, b []byte, n *VerifNode)
+	WalOpened     func(file any, db string)
+	WalIO         func(file any, kind int, b []byte)
+	Replay        func(fs *VerifStore, op uint8, lsn uint64, pageID uint64, cellID uint32, redo bool)
+	LRU           func(l *LRUCache, kind int, key any, n *VerifNode)
+}
+
+var verifHooks *VerifHooks
+
+// VerifSetHooks installs (or, with nil, removes) the callback table. It must
+// not be called while any store is in use.
+func VerifSetHooks(h *VerifHooks) { verifHooks = h }
+
+func verifNodeMark(n *btreeNode, dirty bool) {
+	if h := verifHooks; h != nil && h.NodeMark != nil {
+		h.NodeMark(n, dirty)
+	}
+}
+
+func verifStoreOpened(fs *fileStore, path string, autoFlush bool) {
+	if h := verifHooks; h != nil && h.StoreOpened != nil {
+		h.StoreOpened(fs, path, autoFlush)
+	}
+}
+
+func verifTicker(fs *fileStore) {
+	if h := verifHooks; h != nil && h.TickerChan != nil {
+		if c := h.TickerChan(fs); c != nil {
+			fs.ticker.Stop()
+			// Stop on a Ticker that was not made by NewTicker is a no-op,
+			// so fileStore.close keeps working.
+			fs.ticker = &time.Ticker{C: c}
+		}
+	}
+}
+
+func verifFlusher(fs *fileStore, phase int) {
+	if h := verifHooks; h != nil && h.Flusher != nil {
+		h.Flusher(fs, phase)
+	}
+}
+
+func verifLock(fs *fileStore, op int) {
+	if h := verifHooks; h != nil && h.Lock != nil {
+		h.Lock(fs, op)
+	}
+}
+
+func verifClose(fs *fileStore) {
+	if h := verifHooks; h != nil && h.Close != nil {
+		h.Close(fs)
+	}
+}
+
+func verifAccess(fs *fileStore, kind int, offset uint64) {
+	if h := verifHooks; h != nil && h.Access != nil {
+		h.Access(fs, kind, offset)
+	}
+}
+
+func verifPageWrite(fs *fileStore, n *btreeNode, b []byte) {
+	if h := verifHooks; h != nil && h.PageWrite != nil {
+		h.PageWrite(fs, n, b)
+	}
+}
+
+func verifHeaderWrite(fs *fileStore, b []byte) {
+	if h := verifHooks; h != nil && h.HeaderWrite != nil {
+		h.HeaderWrite(fs, b)
+	}
+}
+
+func verifFlushLoopDone(fs *fileStore) {
+	if h := verifHooks; h != nil && h.FlushLoopDone != nil {
+		h.FlushLoopDone(fs)
+	}
+}
+
+func verifPageRead(fs *fileStore, offset uint64, b []byte, n *btreeNode) {
+	if h := verifHooks; h != nil && h.PageRead != nil {
+		h.PageRead(fs, offset, b, n)
+	}
+}
+
+func verifWalOpened(file any, db string) {
+	if h := verifHooks; h != nil && h.WalOpened != nil {
+		h.WalOpened(file, db)
+	}
+}
+
+func verifWalIO(file any, kind int, b []byte) {
+	if h := verifHooks; h != nil && h.WalIO != nil {
+		h.WalIO(file, kind, b)
+	}
+}
+
+func verifReplay(fs *fileStore, e *WALEntry, redo bool) {
+	if h := verifHooks; h != nil && h.Replay != nil {
+		h.Replay(fs, uint8(e.WALOp), e.LSN, e.pageID, e.cellID, redo)
+	}
+}
+
+func verifLRU(l *LRUCache, kind int, key any, n *btreeNode) {
+	if h := verifHooks; h != nil && h.LRU != nil {
+		h.LRU(l, kind, key, n)
+	}
+}
